@@ -83,6 +83,9 @@ Step ==
                    ELSE "none"
          /\ drift' = "none"
          /\ UNCHANGED <<cnt, fil, clo>>
+    [] e = "h_lock_dead" ->   \* pool.mu could not be taken any more: a pool method waits for the lock it holds
+         /\ bad' = "NoSelfDeadlock" /\ drift' = "none"
+         /\ UNCHANGED <<cnt, fil, clo>>
     [] e = "h_final" ->    \* the pool has been closed and everything has settled
          /\ bad' = IF open # {} THEN "NoLeakAfterClose" ELSE IF conns # {} THEN "ClosedEmpty" ELSE "none"
          /\ drift' = "none"
